@@ -260,6 +260,54 @@ func isolatedRun(args []string) int {
 	if m := u.maxSeen.Load(); m > 1 {
 		flagV("%d executions of the underlying job were in flight at the same time (%d overlapping entries observed)", m, u.overlaps.Load())
 	}
+	// ---- nested wrappers: an isolated job that is wrapped again (a helper that isolates whatever it is given). Calls come through the
+	// inner and through the outer wrapper at the same time; the job under the inner wrapper must still never overlap, and a call that is
+	// refused by either gate must not reach it.
+	{
+		outer := job.NewIsolatedJob(j)
+		var wg sync.WaitGroup
+		var refused, ran atomic.Int64
+		inv0 := u.inv.Load()
+		for g := 0; g < *gor; g++ {
+			wg.Add(1)
+			go func(g int, gr *rand.Rand) {
+				defer wg.Done()
+				w := j
+				if g%2 == 1 {
+					w = outer
+				}
+				for i := 0; i < *n/2; i++ {
+					c, _ := isoCall(w)
+					switch {
+					case len(c) > 1:
+						flagV("%s (nested wrappers, goroutine %d through the %s wrapper, call %d)", c, g, map[bool]string{true: "outer", false: "inner"}[g%2 == 1], i)
+					case c == "r":
+						refused.Add(1)
+					default:
+						ran.Add(1)
+					}
+					if gr.Intn(3) == 0 {
+						time.Sleep(time.Duration(gr.Intn(150)) * time.Microsecond)
+					}
+				}
+			}(g, rand.New(rand.NewSource(*seed*7919+int64(g))))
+		}
+		wg.Wait()
+		evaluations += int(refused.Load() + ran.Load())
+		dist["nested"] = map[string]int{"ran": int(ran.Load()), "refused with an error": int(refused.Load())}
+		if got := u.inv.Load() - inv0; got != ran.Load() {
+			flagV("nested wrappers: %d calls came back as executed but the underlying job was invoked %d times", ran.Load(), got)
+		}
+		if m := u.maxSeen.Load(); m > 1 {
+			flagV("nested wrappers: %d executions of the underlying job were in flight at the same time (calls through the inner and the outer wrapper of one job)", m)
+		}
+		for _, w := range []quartz.Job{outer, j} {
+			if c, _ := isoCall(w); c == "r" || len(c) > 1 {
+				flagV("nested wrappers: with no execution in progress a call was not admitted (%s)", c)
+			}
+			evaluations++
+		}
+	}
 	samples = append(samples, map[string]any{"phase": "storm", "goroutines": *gor, "rounds": *rounds, "calls": evaluations,
 		"max_in_flight": u.maxSeen.Load(), "underlying_invocations": u.inv.Load(), "refused": contended})
 
